@@ -786,6 +786,27 @@ def renew (f : Fixes) (k : RenewKind) (s : HostState) (r : RenewReq) : POut × H
   | .reject _ => (.reject, s)
   | .pass _ => (.accept, if k = .form2 then s else { s with rev := MaxRevision, roots := [] })
 
+/-! ## commit order of the upload-carrying handlers (C02's second engine)
+
+The volumes model (Model/Volumes.lean, Props/C02.lean) proves that referenced data is durable for
+histories in which a reference is committed only after `Sync` returned.  Whether the RPC handlers
+produce such histories is a fact about their code, transcribed here and observed on the real host by
+the monitor `c02/rpc_commit_synced/<site>` (ground truth: a wrapper around each volume data file). -/
+
+structure CommitShape where
+  /-- name used by the monitor -/
+  site : String
+  /-- the handler calls `sectors.Sync()` and checks its error before it commits the revision /
+  registers the temporary sectors that reference the uploaded data -/
+  syncBeforeCommit : Bool
+deriving DecidableEq, Repr
+
+/-- rhp/v3/execute.go `programExecutor.commit`: `pe.sectors.Sync()` (:664) precedes
+`pe.updater.Commit` (:724) and `pe.sectors.AddTemporarySectors` (:746) -/
+def rhp3CommitShape : CommitShape := { site := "programExecutor.commit", syncBeforeCommit := true }
+/-- rhp/v2/rpc.go `rpcWrite`: `sh.sectors.Sync()` (:726) precedes `contractUpdater.Commit` (:742) -/
+def rhp2WriteShape : CommitShape := { site := "rpcWrite", syncBeforeCommit := true }
+
 /-! ## RHP2 range checks (rhp/v2/rpc.go + the validators of core it relies on) -/
 
 inductive V2Out where
